@@ -17,9 +17,18 @@ CLAIM = ('Proved in Coq END TO END for the model, Numbers naming without and wit
          "fixed[_infix][.suffix][.gz], C14_family_name_shape) and that the model's listing never returns a name without the "
          "fixed part and separator (C14_listing_prefix); the listing's family test accepts exactly the documented pattern "
          '(C14_listing_accepts_family_only / _all_family) and an entry it rejects does not influence filter_files, on which '
-         'numbering, collision handling and cleanup work (C14_foreign_ignored). Noninterference for whole histories (all '
-         'effects) is not proved: partial. ')
-THEOREMS = ["C14_numbers_foreign_ignored", "C14_numbers_stream_foreign", "C14_numbers_cleanup_foreign_ignored", "C14_foreign_ignored", "C14_listing_accepts_family_only", "C14_listing_accepts_all_family", "C14_family_name_shape", "C14_listing_prefix"]
+         'numbering, collision handling and cleanup work (C14_foreign_ignored). The same end-to-end theorems are proved for the '
+         'other three namings without cleanup (C14_numbersdirect_foreign_ignored, C14_numbersdirect_stream_foreign, '
+         'C14_timestampsdirect_foreign_ignored, C14_timestampsdirect_stream_foreign, C14_timestamps_foreign_ignored, '
+         'C14_timestamps_stream_foreign; time-stamp namings: clock not going backwards, up to the year 9999), each against the '
+         "real family test of that naming's listings (C14_ts_member_shape: every member is fixed_r...). The proofs pinned down "
+         'what is NOT foreign: a name that passes the family filter although the logger did not write it '
+         "(a_r1999-01-01_00-00-00.log, a_r1970-1-1_0-0-0.log through chrono's lenient parsing, a_r1x.log for the number filter, "
+         "a stranger's a_rCURRENT.log) is treated as the logger's own - continued, renamed, counted, cleaned up (examples "
+         'evaluated in Coq in Flw/TsdForeign.v, Flw/TsForeign.v); the property speaks of files that do not match the family '
+         'pattern. Partial: the three other namings combined with a cleanup strategy, and histories with queries, reopen, faults '
+         'or kills, are decided by the twin runs only. ')
+THEOREMS = ["C14_numbers_foreign_ignored", "C14_numbers_stream_foreign", "C14_numbers_cleanup_foreign_ignored", "C14_foreign_ignored", "C14_listing_accepts_family_only", "C14_listing_accepts_all_family", "C14_family_name_shape", "C14_listing_prefix", "C14_numbersdirect_foreign_ignored", "C14_numbersdirect_stream_foreign", "C14_timestampsdirect_foreign_ignored", "C14_timestampsdirect_stream_foreign", "C14_timestamps_foreign_ignored", "C14_timestamps_stream_foreign", "C14_ts_member_shape"]
 TRUSTED = ["modelled, not verified: read_dir, Path::extension/file_stem (std semantics pinned in DESIGN appendix D)"]
 ASSUMPTIONS = ["foreign names are generated from a near-miss grammar; file modification times are not compared (content and existence are)"]
 RULE = ("pairs of cases: (a) 1-4 foreign files/sub-directories created first - other separator, longer/shorter basename with common "
